@@ -23,6 +23,17 @@ pub mod c20;
 use crate::report::Run;
 
 pub fn dispatch(run: &Run) -> bool {
+    // coverage-guided stages: seed corpus generation and replay of kept fuzzer inputs
+    if let Some(t) = run.opts.extra.get("fuzz-target") {
+        if let Some(d) = run.opts.extra.get("fuzz-corpus") {
+            crate::fuzz::write_corpus(run, t, d);
+            return true;
+        }
+        if let Some(f) = run.opts.extra.get("fuzz-file") {
+            crate::fuzz::replay(run, t, f);
+            return true;
+        }
+    }
     match run.opts.prop.as_str() {
         "C01" => c01::run(run),
         "C02" => c02::run(run),
